@@ -170,11 +170,17 @@ func runC18(rc *runCfg, pl *plan, m *merged) error {
 				Detail: map[string]any{"process": w, "difference": why}}, Config: cfg, Mode: "concurrent"})
 		}
 	}
-	for k := range m.extra {
+	orders := map[string]bool{}
+	for k, v := range m.extra {
 		if strings.HasSuffix(k, "/construction-only-counts") {
 			delete(m.extra, k)
 		}
+		if strings.HasSuffix(k, "/first-use completion order") {
+			orders[fmt.Sprint(v)] = true
+			delete(m.extra, k)
+		}
 	}
+	m.extra["distinct first-use completion orders observed (an observable of the schedule)"] = len(orders)
 	m.extra["concurrent cold processes"] = len(outs)
 	m.extra["processes whose construction counts were compared with the sequential process"] = compared
 	m.extra["processes with a contended first use"] = contended
